@@ -54,9 +54,9 @@ type twExpr struct {
 }
 
 func (e twExpr) Value(*hcl.EvalContext) (cty.Value, hcl.Diagnostics) { return cty.DynamicVal, nil }
-func (e twExpr) Variables() []hcl.Traversal                           { return e.travs }
-func (e twExpr) Range() hcl.Range                                      { return e.rng }
-func (e twExpr) StartRange() hcl.Range                                 { return e.rng }
+func (e twExpr) Variables() []hcl.Traversal                          { return e.travs }
+func (e twExpr) Range() hcl.Range                                    { return e.rng }
+func (e twExpr) StartRange() hcl.Range                               { return e.rng }
 
 var twRange = hcl.Range{Filename: "tw.hcl", Start: hcl.Pos{Line: 1, Column: 1, Byte: 0}, End: hcl.Pos{Line: 1, Column: 2, Byte: 1}}
 
